@@ -8,7 +8,10 @@
 EXTENDS Query
 
 \* abstract collections -> element class
-CollClass == [A |-> "A", B |-> "B"]
+\* A, B: the two primary collections; X1, X2: further built-in collections; S: a singleton
+\* (one object, not a sequence); Z: a collection that only exists when metadata declares it
+CollClass == [A |-> "A", B |-> "B", X1 |-> "T", X2 |-> "M", S |-> "I", Z |-> "Z"]
+Singletons == {"S"}
 Banks == {"bk1", "bk2"}
 
 \* methods: cls, name, ret: "num"|"obj"|"vecnum"|"vecobj", kind (C++ scalar kind or target class), declared?
@@ -24,7 +27,10 @@ Methods == <<
   [cls |-> "B", name |-> "pt",   ret |-> "num",    kind |-> "double", declared |-> FALSE],
   [cls |-> "B", name |-> "eta",  ret |-> "num",    kind |-> "double", declared |-> FALSE],
   [cls |-> "T", name |-> "pt",   ret |-> "num",    kind |-> "double", declared |-> FALSE],
-  [cls |-> "T", name |-> "q",    ret |-> "num",    kind |-> "int",    declared |-> TRUE]
+  [cls |-> "T", name |-> "q",    ret |-> "num",    kind |-> "int",    declared |-> TRUE],
+  [cls |-> "M", name |-> "pt",   ret |-> "num",    kind |-> "double", declared |-> FALSE],
+  [cls |-> "I", name |-> "runNumber", ret |-> "num", kind |-> "double", declared |-> FALSE],
+  [cls |-> "Z", name |-> "pt",   ret |-> "num",    kind |-> "double", declared |-> FALSE]
 >>
 
 MethodsOf(c, ret) == {i \in DOMAIN Methods : Methods[i].cls = c /\ Methods[i].ret = ret}
@@ -67,26 +73,57 @@ Support(q) == IF q.k = "Root" /\ q.n # NCols(q.ch[1]) THEN "MUST_REJECT"
               ELSE IF \E c \in ColTerms(q) : IsVecTerm(c) THEN "MAY" ELSE "MUST_ACCEPT"
 
 \* per backend: python collection name, C++ container type, C++ element type, elements held by pointer?
+\* per backend: python collection name ("" = the backend has no such collection), C++ container type,
+\* the header and (ATLAS) link library the experiment's documentation names for it
+Ent(py, ctype, header, lib) == [py |-> py, ctype |-> ctype, header |-> header, lib |-> lib]
+NoColl == Ent("", "", "", "")
 Backends == [
   atlas |-> [
-     colls |-> [A |-> [py |-> "Jets",      ctype |-> "xAOD::JetContainer",      header |-> "xAODJet/JetContainer.h"],
-                B |-> [py |-> "Electrons", ctype |-> "xAOD::ElectronContainer", header |-> "xAODEgamma/ElectronContainer.h"]],
-     classes |-> [A |-> "xAOD::Jet", B |-> "xAOD::Electron", T |-> "xAOD::TrackParticle"],
+     colls |-> [A  |-> Ent("Jets",      "xAOD::JetContainer",           "xAODJet/JetContainer.h",                 "xAODJet"),
+                B  |-> Ent("Electrons", "xAOD::ElectronContainer",      "xAODEgamma/ElectronContainer.h",         "xAODEgamma"),
+                X1 |-> Ent("Tracks",    "xAOD::TrackParticleContainer", "xAODTracking/TrackParticleContainer.h",  "xAODTracking"),
+                X2 |-> Ent("Muons",     "xAOD::MuonContainer",          "xAODMuon/MuonContainer.h",               "xAODMuon"),
+                S  |-> Ent("EventInfo", "xAOD::EventInfo",              "xAODEventInfo/EventInfo.h",              "xAODEventInfo"),
+                Z  |-> Ent("VpZeds",    "vp::ZedContainer",             "vp_zed/ZedContainer.h",                  "vpZedLib")],
+     classes |-> [A |-> "xAOD::Jet", B |-> "xAOD::Electron", T |-> "xAOD::TrackParticle", M |-> "xAOD::Muon",
+                  I |-> "xAOD::EventInfo", Z |-> "vp::Zed"],
+     altA |-> "vp::AltJetContainer",
      elemptr |-> TRUE],
   cms_aod |-> [
-     colls |-> [A |-> [py |-> "Muons",        ctype |-> "reco::MuonCollection",        header |-> "DataFormats/MuonReco/interface/Muon.h"],
-                B |-> [py |-> "GsfElectrons", ctype |-> "reco::GsfElectronCollection", header |-> "DataFormats/EgammaCandidates/interface/GsfElectron.h"]],
-     classes |-> [A |-> "reco::Muon", B |-> "reco::GsfElectron", T |-> "reco::Track"],
+     colls |-> [A  |-> Ent("Muons",        "reco::MuonCollection",        "DataFormats/MuonReco/interface/Muon.h", ""),
+                B  |-> Ent("GsfElectrons", "reco::GsfElectronCollection", "DataFormats/EgammaCandidates/interface/GsfElectron.h", ""),
+                X1 |-> Ent("Tracks",       "reco::TrackCollection",       "DataFormats/TrackReco/interface/Track.h", ""),
+                X2 |-> Ent("Vertex",       "reco::VertexCollection",      "DataFormats/VertexReco/interface/Vertex.h", ""),
+                S  |-> NoColl,
+                Z  |-> Ent("VpZeds",       "vp::ZedCollection",           "vp_zed/ZedCollection.h", "")],
+     classes |-> [A |-> "reco::Muon", B |-> "reco::GsfElectron", T |-> "reco::Track", M |-> "reco::Vertex",
+                  I |-> "vp::NoInfo", Z |-> "vp::Zed"],
+     altA |-> "vp::AltMuonCollection",
      elemptr |-> FALSE],
   cms_miniaod |-> [
-     colls |-> [A |-> [py |-> "Muons",     ctype |-> "pat::MuonCollection",     header |-> "DataFormats/PatCandidates/interface/Muon.h"],
-                B |-> [py |-> "Electrons", ctype |-> "pat::ElectronCollection", header |-> "DataFormats/PatCandidates/interface/Electron.h"]],
-     classes |-> [A |-> "pat::Muon", B |-> "pat::Electron", T |-> "reco::Track"],
+     colls |-> [A  |-> Ent("Muons",     "pat::MuonCollection",     "DataFormats/PatCandidates/interface/Muon.h", ""),
+                B  |-> Ent("Electrons", "pat::ElectronCollection", "DataFormats/PatCandidates/interface/Electron.h", ""),
+                X1 |-> NoColl,
+                X2 |-> Ent("Vertex",    "reco::VertexCollection",  "DataFormats/VertexReco/interface/Vertex.h", ""),
+                S  |-> NoColl,
+                Z  |-> Ent("VpZeds",    "vp::ZedCollection",       "vp_zed/ZedCollection.h", "")],
+     classes |-> [A |-> "pat::Muon", B |-> "pat::Electron", T |-> "reco::Track", M |-> "reco::Vertex",
+                  I |-> "vp::NoInfo", Z |-> "vp::Zed"],
+     altA |-> "vp::AltMuonCollection",
      elemptr |-> FALSE]
 ]
 
+(* Collections declared through metadata (C06).  A case may carry one declaration variant:
+     none       only built-in collections
+     fresh_Z    declares the new collection Z (python name VpZeds)
+     replace_A  re-declares the built-in python name of A with another container type        *)
+DeclVariants == {"none", "fresh_Z", "replace_A"}
+CollTypeV(backend, v) == [c \in DOMAIN CollClass |->
+                            IF v = "replace_A" /\ c = "A" THEN Backends[backend].altA ELSE Backends[backend].colls[c].ctype]
+LibOf(backend, c) == Backends[backend].colls[c].lib
+SigForV(backend, v) == [collClass |-> CollClass, collType |-> CollTypeV(backend, v), decls |-> Decls]
 SigFor(backend) == [collClass |-> CollClass,
-                    collType |-> [c \in DOMAIN CollClass |-> Backends[backend].colls[c].ctype],
+                    collType |-> CollTypeV(backend, "none"),
                     decls |-> Decls]
 
 \* how a method's declared return type is spelled in C++ / in the metadata, per backend
@@ -107,11 +144,26 @@ MdFor(b) == [i \in 1..Len(Declared) |->
                 return_type_element |-> IF m.ret \in {"vecnum", "vecobj"} THEN CppRet(m, b) ELSE ""]]
 
 BackendNames == {"atlas", "cms_aod", "cms_miniaod"}
+CollMdType(b) == CASE b = "atlas" -> "add_atlas_event_collection_info"
+                   [] b = "cms_aod" -> "add_cms_aod_event_collection_info"
+                   [] b = "cms_miniaod" -> "add_cms_miniaod_event_collection_info"
+AltHeader == "vp_alt/AltContainer.h"
+\* the collection declarations of the two declaration variants (link_libraries applies to ATLAS only)
+CollMd(b, v) ==
+  IF v = "fresh_Z"
+  THEN [metadata_type |-> CollMdType(b), name |-> Backends[b].colls.Z.py, include_files |-> <<Backends[b].colls.Z.header>>,
+        container_type |-> Backends[b].colls.Z.ctype, element_type |-> Backends[b].classes.Z,
+        contains_collection |-> TRUE, link_libraries |-> <<Backends[b].colls.Z.lib>>]
+  ELSE [metadata_type |-> CollMdType(b), name |-> Backends[b].colls.A.py, include_files |-> <<AltHeader>>,
+        container_type |-> Backends[b].altA, element_type |-> Backends[b].classes.A,
+        contains_collection |-> TRUE, link_libraries |-> <<"vpAltLib">>]
 UniverseRecord == [methods |-> [i \in 1..Len(Methods) |->
                                   [cls |-> Methods[i].cls, name |-> Methods[i].name, ret |-> Methods[i].ret,
                                    kind |-> Methods[i].kind, declared |-> Methods[i].declared,
                                    cpp |-> [b \in BackendNames |-> CppRet(Methods[i], b)]]],
                    backends |-> Backends,
                    md |-> [b \in BackendNames |-> MdFor(b)],
-                   collClass |-> CollClass]
+                   collmd |-> [b \in BackendNames |-> [v \in {"fresh_Z", "replace_A"} |-> CollMd(b, v)]],
+                   altHeader |-> AltHeader,
+                   collClass |-> CollClass, singletons |-> Singletons]
 =============================================================================
